@@ -162,6 +162,7 @@ Definition show_event (e : event) : string :=
   | EvNoiseDone id => ("N" ++ hx id)%string
   | EvFrame m => ("F" ++ hx m)%string
   | EvIgnored w => if w then "W" else "G"
+  | EvReply r => ("R" ++ hx (firstn 4 r) ++ ":" ++ hx [blen r / 65536; (blen r / 256) mod 256; blen r mod 256])%string
   | EvInit => "I"
   | EvDeliver => "D"
   end.
@@ -180,6 +181,7 @@ Definition classify_msg (m : Noise.bytes) : mkind :=
     KStartBatch (slice 2 34 m) (nth 34 m 0 * 256 + nth 35 m 0) (beqb (skipn 36 m) [1; 2; 0; 132])
   else if ty =? 132 then KCommitmentSigned (slice 2 34 m)
   else if ty =? 265 then KGossipFilter
+  else if ty =? 18 then KPing (nth 2 m 0 * 256 + nth 3 m 0)
   else KOther ty.
 Fixpoint lookup_dres (tbl : list (Noise.bytes * dres)) (m : Noise.bytes) : dres :=
   match tbl with
